@@ -2931,6 +2931,9 @@ class SX:
             return v.path
         if isinstance(v, Unk) and v.text == '<f-string>':
             return None          # a formatted string is a str, never None
+        if isinstance(v, Unk) and v.text.split('(')[0].isidentifier() and '(' in v.text \
+                and v.text.split('(')[0].endswith(('Error', 'Exception', 'Warning')):
+            return None          # a freshly built exception object (`TypeError(...)`), never None
         if isinstance(v, (Unk,)):
             return v.text
         if isinstance(v, Fv):
@@ -3179,6 +3182,18 @@ class SX:
         if isinstance(f, ast.Name):
             return self.apply_name(n, f.id, args, kwargs, st, frame)
         attr = f.attr
+        if isinstance(recv, (Q, Ov)) and len(args) == 2 and not kwargs:
+            # a class-level predicate `NAME = staticmethod(lt)` (operator function) called through the object
+            owner_ = frame.get('cls') if attr.startswith('__') and not attr.endswith('__') else (recv.kind if isinstance(recv, Q) else recv.cls)
+            ci_ = self.model.classes.get(owner_) if owner_ else None
+            ca_ = ci_.class_attrs.get(attr) if ci_ is not None and attr.startswith('__') else (
+                self.model.find_class_attr(owner_, attr)[1] if owner_ else None)
+            if isinstance(ca_, ast.Call) and isinstance(ca_.func, ast.Name) and ca_.func.id == 'staticmethod' and len(ca_.args) == 1 \
+                    and isinstance(ca_.args[0], ast.Name) and ca_.args[0].id in ('lt', 'le', 'gt', 'ge', 'eq', 'ne') \
+                    and ca_.args[0].id not in self.model.functions:
+                opn_ = {'eq': ast.Eq(), 'ne': ast.NotEq(), 'lt': ast.Lt(), 'le': ast.LtE(), 'gt': ast.Gt(), 'ge': ast.GtE()}[ca_.args[0].id]
+                v_ = self.compare_values(opn_, args[0], args[1], st, n)
+                return [v_ if isinstance(v_, Outcome) else (st, v_)]
         # numpy / math namespaces
         if recv is not None and isinstance(recv, Fv) and recv.name in ('np', 'numpy', 'math', 'itertools', 'collections'):
             return self.apply_name(n, attr, args, kwargs, st, frame)
